@@ -1,13 +1,242 @@
 /-
-Props/C02.lean — property theorems for C02.
+Props/C02.lean — property theorems for C02 (no generated inspector method panics, whatever the value, path,
+operand, source or argument form).
+
+For the *repaired* emitter model (`GenCfg.fixed`), every argument form `f : Form` (by value, `*T`, `**T`,
+typed nil `(*T)(nil)`, `**T` to nil, `(**T)(nil)`, untyped nil, foreign type), every well-formed tree
+(`NodeWF`), every well-typed value (`WT`) and every path / operator / operand / assigned source / options:
+the model's outcome is not the panic outcome. One theorem per method:
+
+  get_no_panic, cmp_no_panic, lc_no_panic, deq_no_panic, reset_no_panic, copy_no_panic, copyTo_no_panic,
+  set_no_panic, loop_no_panic.
+
+Hypotheses beyond `NodeWF`/`WT`, each a decidable `Bool`/`DecidableEq` fact the driver can evaluate:
+  * `cmp_no_panic`: `EmitOK n` — for a *named* bool the emitter writes a six-way comparison that does not
+    compile; the model's `cmpSix` answers `.panic` there (`cmp_needs_EmitOK`).
+  * `deq_no_panic`: neither argument is a nil `**T` — `deqM` dereferences `*lp` / `*rp` in the header whatever
+    the configuration (`deq_nil_ptrptr_panics_fixed`): the class `nil-root-panics` is not wired to
+    `GenCfg.nilRootPanics` in `deqM`.
+  * `copyTo_no_panic`: the destination value is well-typed too.
+  * `loop_no_panic`: `LoopNilKeyFree` — the iterator never asks for keys, or the looped map holds no nil
+    pointer key. The emitted key rendering `*k` (compiler.go:785-800) dereferences a nil `*K` key; no listed
+    defect flag repairs it (`loop_nil_key_panics_fixed`).
+`RootOK` is needed nowhere.
+
+The model of the current tree (`GenCfg.repo`) panics on every listed class: `repo_panics_*`.
 -/
-import InspectorModel.Gen.Get
-import InspectorModel.Gen.Cmp
-import InspectorModel.Gen.LC
+import InspectorModel.Proofs.C02
+import InspectorModel.Proofs.C02Deq
+import InspectorModel.Proofs.C02Reset
+import InspectorModel.Proofs.C02Copy
+import InspectorModel.Proofs.C02Set
 namespace Inspector.C02
 
 /-- By value, by pointer and by pointer-to-pointer: the emitted argument-form switch leaves the same root. -/
 theorem get_forms_agree (cfg : GenCfg) (n : Node) (v : Val) (p : List Seg) :
     getM cfg n .val v p = getM cfg n .ptr v p ∧ getM cfg n .ptr v p = getM cfg n .ptrptr v p := ⟨rfl, rfl⟩
+
+/-- Get / GetTo never panic. -/
+theorem get_no_panic (n : Node) (f : Form) (v : Val) (p : List Seg)
+    (hwf : NodeWF n = true) (hwt : WT n v = true) :
+    (getM GenCfg.fixed n f v p).isPanic = false :=
+  getM_no_panic n f v p hwf hwt
+
+/-- Compare never panics. -/
+theorem cmp_no_panic (n : Node) (f : Form) (v : Val) (p : List Seg) (op : Op) (right : Seg)
+    (hwf : NodeWF n = true) (hok : EmitOK n = true) (hwt : WT n v = true) :
+    cmpM GenCfg.fixed n f v p op right ≠ .panic :=
+  cmpM_no_panic n f v p op right hwf hok hwt
+
+/-- Length (`isCap = false`) and Capacity (`isCap = true`) never panic. -/
+theorem lc_no_panic (isCap : Bool) (n : Node) (f : Form) (v : Val) (p : List Seg)
+    (hwf : NodeWF n = true) (hwt : WT n v = true) :
+    lcM GenCfg.fixed isCap n f v p ≠ .panic :=
+  lcM_no_panic isCap n f v p hwf hwt
+
+/-- DeepEqual / DeepEqualWithOptions never panic: every pair of argument forms except a nil `**T`, every
+options value (`env.opts`), identical or independent arguments (`env.ident`). -/
+theorem deq_no_panic (env : DeqEnv) (henv : env.cfg = GenCfg.fixed) (n : Node) (fl fr : Form) (l r : Val)
+    (hfl : fl ≠ .nilPtrPtr) (hfr : fr ≠ .nilPtrPtr) (hl : WT n l = true) (hr : WT n r = true) :
+    deqM env n fl fr l r ≠ .panic :=
+  c02_deqM_no_panic env henv n fl fr l r hfl hfr hl hr
+
+/-- Reset never panics. -/
+theorem reset_no_panic (n : Node) (f : Form) (v : Val) (hwt : WT n v = true) :
+    (resetM GenCfg.fixed n f v).isPanic = false :=
+  resetM_no_panic n f v hwt
+
+/-- Copy never panics. -/
+theorem copy_no_panic (n : Node) (f : Form) (r : Val) (hwf : NodeWF n = true) (hr : WT n r = true) :
+    (copyM GenCfg.fixed n f r).isPanic = false :=
+  copyM_no_panic n f r hwf hr
+
+/-- CopyTo never panics, whatever the destination holds. -/
+theorem copyTo_no_panic (n : Node) (fs fd : Form) (r l : Val) (hwf : NodeWF n = true)
+    (hr : WT n r = true) (hl : WT n l = true) :
+    (copyToM GenCfg.fixed n fs fd r l).isPanic = false :=
+  copyToM_no_panic n fs fd r l hwf hr hl
+
+/-- Set / SetWithBuffer never panic: every assigned source (nil pointers and foreign types included), with
+(`noBuf = false`) or without a buffer. -/
+theorem set_no_panic (n : Node) (f : Form) (v : Val) (p : List Seg) (src : Src) (noBuf : Bool)
+    (hwf : NodeWF n = true) (hwt : WT n v = true) :
+    (setM GenCfg.fixed n f v p src noBuf).isPanic = false :=
+  setM_no_panic n f v p src noBuf hwf hwt
+
+/-- The Assign chain under Set never panics, whatever destination kind, old value and source. -/
+theorem assign_no_panic (a : Bool) (dk : DynKind) (old : Val) (s : Src) (noBuf : Bool) :
+    (assignM { strAppendsOld := a, nilSrcPanics := false } dk old s noBuf).isPanic = false :=
+  assignM_np a dk old s noBuf
+
+/-- Loop never panics: every iterator script and float-text oracle. -/
+theorem loop_no_panic (sc : LoopScript) (ft : Val → Bytes) (n : Node) (f : Form) (v : Val) (p : List Seg)
+    (hwf : NodeWF n = true) (hwt : WT n v = true) (hk : LoopNilKeyFree sc n v p = true) :
+    (loopM GenCfg.fixed sc ft n f v p).fin ≠ .panic :=
+  loopM_no_panic sc ft n f v p hwf hwt hk
+
+section NonVacuity
+/-- `type T struct { M map[string]int; L []int; P *int; S *string; E []*Inner; I Inner; PM map[*string]int }`,
+`type Inner struct { B string }`. -/
+def inner (name : String) (ptr : Bool) : Node :=
+  .struct { typn := "Inner", name := name, ptr := ptr, hasc := true }
+    [.basic { typn := "string", typu := "string", name := "B", hasc := true }]
+def exNode : Node :=
+  .struct { typn := "T", hasc := true } [
+    .map { typn := "map[string]int", name := "M", hasc := true }
+      (.basic { typn := "string", typu := "string" }) (.basic { typn := "int", typu := "int" }),
+    .slice { typn := "[]int", name := "L", hasc := true } (.basic { typn := "int", typu := "int" }),
+    .basic { typn := "int", typu := "int", name := "P", ptr := true },
+    .basic { typn := "string", typu := "string", name := "S", ptr := true, hasc := true },
+    .slice { typn := "[]*Inner", name := "E", hasc := true } (inner "" true),
+    inner "I" false,
+    .map { typn := "map[*string]int", name := "PM", hasc := true }
+      (.basic { typn := "string", typu := "string", ptr := true }) (.basic { typn := "int", typu := "int" })]
+/-- `M` nil, `L = [3]`, `P` nil, `S = &"s"`, `E = [nil]`, `I = {B: "b"}`, `PM = {nil: 1}`. -/
+def exVal : Val :=
+  .struct [.map true [] [], .slice false [.int 3] 1, .nilptr, .ptr (.str (strBytes "s")),
+           .slice false [.nilptr] 1, .struct [.str (strBytes "b")], .map false [.nilptr] [.int 1]]
+/-- The zero value of `T`. -/
+def exZero : Val := zeroVal exNode
+def seg (t : String) (pi : Option Int := none) : Seg := { text := strBytes t, pi := pi }
+def srcInt (i : Int) : Src := { kind := .int, v := .int i }
+def srcNilIntPtr : Src := { kind := .int, isPtr := true, v := .nilptr }
+def exScriptKeys : LoopScript := { wantKey := [true], ctl := [0] }
+def exScriptNoKeys : LoopScript := { wantKey := [false], ctl := [0] }
+def exFt (_ : Val) : Bytes := []
+
+/-- The hypotheses of all theorems hold of a concrete input full of nil pointers, nil maps and nil elements … -/
+example : NodeWF exNode = true ∧ EmitOK exNode = true ∧ WT exNode exVal = true ∧ WT exNode exZero = true := by decide
+example : LoopNilKeyFree exScriptKeys exNode exVal [seg "M"] = true ∧
+    LoopNilKeyFree exScriptNoKeys exNode exVal [seg "PM"] = true ∧
+    LoopNilKeyFree exScriptKeys exNode exVal [seg "PM"] = false := by decide
+/-- … on which the repaired model answers (instances of the theorems, evaluated). -/
+example : (getM GenCfg.fixed exNode .ptr exVal [seg "L", seg "-1" (some (-1))]).isPanic = false := by decide
+example : (getM GenCfg.fixed exNode .nilPtr exVal [seg "L"]).isPanic = false := by decide
+example : cmpM GenCfg.fixed exNode .ptr exVal [seg "L", seg "0" (some 0)] 1 (seg "3" (some 3)) = .set true := by decide
+example : lcM GenCfg.fixed false exNode .ptr exVal [seg "I"] = .val 0 := by decide
+example : deqM { cfg := GenCfg.fixed, ident := true } exNode .ptr .val exVal exVal = .t := by decide
+example : deqM { cfg := GenCfg.fixed } exNode .nilPtr .ptr exVal exVal = .f := by decide
+example : (resetM GenCfg.fixed exNode .ptr exVal).isPanic = false := by decide
+example : (copyM GenCfg.fixed exNode .ptr exVal).isPanic = false := by decide
+example : (copyToM GenCfg.fixed exNode .ptr .ptr exVal exZero).isPanic = false := by decide
+example : (setM GenCfg.fixed exNode .ptr exVal [seg "M", seg "a"] (srcInt 5) true).isPanic = false := by decide
+example : (setM GenCfg.fixed exNode .ptr exVal [seg "P"] srcNilIntPtr true).isPanic = false := by decide
+example : (loopM GenCfg.fixed exScriptNoKeys exFt exNode .ptr exVal [seg "PM"]).fin = .done := by decide
+
+/-! ### The model of the current tree panics: one witness per known class -/
+
+/-- `negative-index`: `L.-1` reaches `s[-1]`. -/
+theorem repo_panics_negative_index :
+    (getM GenCfg.repo exNode .ptr exVal [seg "L", seg "-1" (some (-1))]).isPanic = true ∧
+    cmpM GenCfg.repo exNode .ptr exVal [seg "L", seg "-1" (some (-1))] 1 (seg "3" (some 3)) = .panic ∧
+    (setM GenCfg.repo exNode .ptr exVal [seg "L", seg "-1" (some (-1))] (srcInt 5) true).isPanic = true := by
+  decide
+
+/-- `nil-root-panics`: a typed-nil root is dereferenced (GetTo on the empty path, Reset, Copy, Length). -/
+theorem repo_panics_nil_root :
+    (getM GenCfg.repo exNode .nilPtr exVal []).isPanic = true ∧
+    cmpM GenCfg.repo exNode .nilPtr exVal [seg "L"] 1 (seg "3") = .panic ∧
+    (resetM GenCfg.repo exNode .nilPtr exVal).isPanic = true ∧
+    (copyM GenCfg.repo exNode .nilPtr exVal).isPanic = true ∧
+    lcM GenCfg.repo false exNode .nilPtr exVal [seg "L"] = .panic ∧
+    (setM GenCfg.repo exNode .ptrNilPtr exVal [seg "L"] (srcInt 5) true).isPanic = true := by
+  decide
+
+/-- `lc-struct-stop-panics`: Length on a path that stops on the nested struct `I` indexes `path[1]`. -/
+theorem repo_panics_lc_struct_stop :
+    lcM GenCfg.repo false exNode .ptr exVal [seg "I"] = .panic ∧
+    lcM GenCfg.repo true exNode .ptr exVal [seg "I"] = .panic := by
+  decide
+
+/-- `copy-nil-elem-panics`: the nil `*Inner` element of `E` is dereferenced. -/
+theorem repo_panics_copy_nil_elem :
+    (copyM GenCfg.repo (.slice { typn := "[]*Inner" } (inner "" true)) .ptr (.slice false [.nilptr] 1)).isPanic = true := by
+  decide
+
+/-- `copy-nil-dest-panics`: the `*string` field `S` is written through the nil destination pointer. -/
+theorem repo_panics_copy_nil_dest :
+    (copyM GenCfg.repo (.struct { typn := "T" } [.basic { typn := "string", typu := "string", name := "S", ptr := true }])
+      .ptr (.struct [.ptr (.str (strBytes "s"))])).isPanic = true := by
+  decide
+
+/-- `type RM map[string]int`. -/
+def exRootMap : Node :=
+  .map { typn := "RM" } (.basic { typn := "string", typu := "string" }) (.basic { typn := "int", typu := "int" })
+
+/-- `copy-root-map-panics`: copying a non-empty root map stores into the nil destination map. -/
+theorem repo_panics_copy_root_map :
+    (copyM GenCfg.repo exRootMap .ptr (.map false [.str (strBytes "a")] [.int 1])).isPanic = true := by
+  decide
+
+/-- `reset-nil-ptr-panics`: Reset dereferences the nil `*int` field `P`. -/
+theorem repo_panics_reset_nil_ptr :
+    (resetM GenCfg.repo exNode .ptr exVal).isPanic = true := by
+  decide
+
+/-- `set-nil-map-store`: Set on a nil root map stores into it. -/
+theorem repo_panics_set_nil_map_store :
+    (setM GenCfg.repo exRootMap .ptr (.map true [] []) [seg "a"] (srcInt 5) true).isPanic = true := by
+  decide
+
+/-- `set-nil-leaf-ptr`: Set hands the nil `*int` field `P` to AssignBuf as the destination. -/
+theorem repo_panics_set_nil_leaf_ptr :
+    (setM GenCfg.repo exNode .ptr exVal [seg "P"] (srcInt 5) true).isPanic = true := by
+  decide
+
+/-- `assign-nil-src`: Set with a nil `*int` as the assigned value dereferences it. -/
+theorem repo_panics_assign_nil_src :
+    (setM GenCfg.repo exNode .ptr exVal [seg "L", seg "0" (some 0)] srcNilIntPtr true).isPanic = true := by
+  decide
+
+/-- `deq-ptr-leaf-nil`: DeepEqual dereferences the nil `*int` field `P` of both arguments. -/
+theorem repo_panics_deq_ptr_leaf_nil :
+    deqM {} exNode .ptr .ptr exVal exVal = .panic := by
+  decide
+
+/-! ### What the repaired model still does: the hypotheses are needed -/
+
+/-- `type B bool; type T struct { F B }`: the emitted six-way comparison on a named bool does not compile
+(C14 class `named-scalar`); the model's `cmpSix` answers `.panic` there. `EmitOK` excludes exactly this. -/
+def exNamedBool : Node := .struct { typn := "T" } [.basic { typn := "B", typu := "bool", name := "F" }]
+theorem cmp_needs_EmitOK :
+    NodeWF exNamedBool = true ∧ WT exNamedBool (.struct [.bool true]) = true ∧ EmitOK exNamedBool = false ∧
+    cmpM GenCfg.fixed exNamedBool .ptr (.struct [.bool true]) [seg "F"] 1 { text := strBytes "true", pb := some true } = .panic := by
+  decide
+
+/-- A nil `**T` argument of DeepEqual is dereferenced in the header (`lx, leq = *lp, true`, compiler.go:400)
+under every configuration: `deqM` does not consult `nilRootPanics`. -/
+theorem deq_nil_ptrptr_panics_fixed :
+    deqM { cfg := GenCfg.fixed } exNode .nilPtrPtr .ptr exVal exVal = .panic ∧
+    deqM { cfg := GenCfg.fixed } exNode .ptr .nilPtrPtr exVal exVal = .panic ∧
+    deqM { cfg := GenCfg.fixed } exNode .foreign .nilPtrPtr exVal exVal = .panic := by
+  decide
+
+/-- Loop over `PM = map[*string]int{nil: 1}` with an iterator that asks for keys: the emitted `*k` panics
+even in the repaired model — a defect of the emitter that no `GenCfg` flag lists. -/
+theorem loop_nil_key_panics_fixed :
+    (loopM GenCfg.fixed exScriptKeys exFt exNode .ptr exVal [seg "PM"]).fin = .panic ∧
+    (loopM GenCfg.repo exScriptKeys exFt exNode .ptr exVal [seg "PM"]).fin = .panic := by
+  decide
+end NonVacuity
 
 end Inspector.C02
